@@ -52,9 +52,11 @@ def subVg : Sub → Bool
   | .idx _ => false
   | _ => true
 
-def mid (acc : Bool) : Name → MId
-  | .key k => .key ⟨k, "", false, acc⟩ k
-  | .wild => .wild ⟨"*", "", true, acc⟩
+/-- inner identifiers carry the selector's text and remaining path (setLastNodeText,
+    setConnectedText), their own value-group flag, the selector's accessor flag -/
+def mid (i : Info) : Name → MId
+  | .key k => .key { i with vg := false } k
+  | .wild => .wild { i with vg := true }
 
 def isWildName : Name → Bool
   | .wild => true
@@ -141,7 +143,7 @@ def stepPre (env : Env) (cfg : Cfg) : Step → Except ParseErr (List Pre)
   | .child t k => .ok [.node t false (fun i => .child i k)]
   | .wild t => .ok [.node t true (fun i => .wild i)]
   | .multi t ns => .ok [.node t true (fun i =>
-      .multi i (ns.map (mid i.acc)) (if ns.all isWildName then some i else none))]
+      .multi i (ns.map (mid i)) (if ns.all isWildName then some i else none))]
   | .union t ss => .ok [.node t (match ss with | [s] => subVg s | _ => true) (fun i => .union i (ss.map subI))]
   | .filter t q => do
     let q ← buildQ env cfg q
